@@ -48,6 +48,11 @@ def analyse(tm):
             batch = []
             for v in vs:
                 cw = classify_writes(v, func) if cls is None else [(ev, "entry", ev.extra["dst"], ev.extra["dst"], None) for ev in code_writes(v)]
+                if v.status == "returned" and not any(c_[1] == "entry" for c_ in cw):
+                    # an installation that comes back without having written the entry: the call still runs the original (or an older patch)
+                    if not hasattr(tm, "_returns_without_entry_write"):
+                        tm._returns_without_entry_write = []
+                    tm._returns_without_entry_write.append((p, cls, v))
                 for ev, role, dst, real, alias in cw:
                     r = PatchRec(root=p, cls=cls, variant=v, role=role, ev=ev, pc=real, dst=dst, alias=alias, func=func, repl=repl,
                                  boolval=boolval, sim=None, err=None, dest=None, notes=[], alloc_bound=bound, range_problem=None)
@@ -75,6 +80,21 @@ def analyse(tm):
                 continue
             recs.extend(batch)
     return recs
+
+
+def missing_entry_writes(ck, rule, tm, label):
+    """Every returning path of an install root writes the function's entry (called after analyse(tm)); shared by the reach rule and by
+    the per-architecture checks, which decide destinations from the writes and would otherwise not see a path that writes nothing."""
+    seen = set()
+    for p_, cls_, v_ in getattr(tm, "_returns_without_entry_write", []):
+        k_ = (p_, cls_[0] if cls_ else None)
+        if k_ in seen:
+            continue
+        seen.add(k_)
+        ck.ob(rule, "%s/%s/%s%s/returns-without-writing-the-entry" % (label, tm.arch, short(p_), ("/" + cls_[0]) if cls_ else ""), tm.target, False,
+              "a path of %s returns normally without any write at the function's entry: the call goes on running what was there before [%s]" % (
+                  short(p_), fmt_dec(v_)))
+    return len(seen)
 
 
 def mnemonics(sim):
@@ -140,7 +160,18 @@ def reach_obligations(ck, rule, tm, want_root, label):
     same as C01 R1.1 / C15 R15.2-4 / C16 R16.1; it is repeated under the calling property's rule id so that a change which
     sends these particular installations elsewhere is reported under that property too. Returns the number decided."""
     n = 0
-    for r in analyse(tm):
+    recs_ = analyse(tm)
+    seen_missing = set()
+    for p_, cls_, v_ in getattr(tm, "_returns_without_entry_write", []):
+        class _R:
+            root = p_
+        if not want_root(_R) or (p_, cls_[0] if cls_ else None) in seen_missing:
+            continue
+        seen_missing.add((p_, cls_[0] if cls_ else None))
+        ck.ob(rule, "%s/%s/%s%s/returns-without-writing-the-entry" % (label, tm.arch, short(p_), ("/" + cls_[0]) if cls_ else ""), tm.target, False,
+              "a path of %s returns normally without any write at the function's entry: the call goes on running what was there before [%s]" % (
+                  short(p_), fmt_dec(v_)))
+    for r in recs_:
         if r.role == "other" or r.variant.status != "returned" or not want_root(r):
             continue
         rn = short(r.root)
@@ -187,12 +218,14 @@ def reach_obligations(ck, rule, tm, want_root, label):
     return n
 
 
-def order_obligations(ck, rule, tm, label="trampoline-before-entry"):
+def order_obligations(ck, rule, tm, label="trampoline-before-entry", want=lambda p: True):
     """On every path of every install root, each write into the installation's trampoline precedes the write of the function
     entry: from the moment the entry branches to the trampoline any thread (or the installer itself, when it fakes a function
     it calls) may arrive there, so the trampoline must already be complete. Trace order = program order on the path."""
     n = 0
     for p, func, repl, boolval in roots_and_roles(tm):
+        if not want(p):
+            continue
         rn = short(p)
         for v in tm.variants(p):
             cw = classify_writes(v, func)
